@@ -112,6 +112,10 @@ Proof. exact x_next_backup_ok. Qed.
 Theorem C09_src_suffix_pattern : x_backup_pattern = "^\~(\d+)\~$"%string.
 Proof. exact x_backup_pattern_ok. Qed.
 
+Theorem C09_src_needs_backup_table : forall mode ex base entries, mode < 3 ->
+  needs_backup mode ex base entries = x_needs_backup mode ex (has_backup base entries).
+Proof. exact x_needs_backup_ok. Qed.
+
 Print Assumptions C09_backup_number_fresh.
 Print Assumptions C09_backup_names_exact.
 Print Assumptions C09_overwrite_preserves.
@@ -121,3 +125,4 @@ Print Assumptions C09_kill_keeps_old.
 Print Assumptions C09_no_overflow_below_max.
 Print Assumptions C09_src_next_number.
 Print Assumptions C09_src_suffix_pattern.
+Print Assumptions C09_src_needs_backup_table.
